@@ -13,7 +13,7 @@
 EXTENDS Naturals, Sequences, TLC, Json, IOUtils
 
 VARIABLES day, wd, d, m, y, ms, mw, ys, yw, dps, hh, mi, ss, sod, tps,   \* HttpDate's calendar and clock
-          l, bad
+          l, bad, odd
 cal == <<day, wd, d, m, y, ms, mw, ys, yw, dps, hh, mi, ss, sod, tps>>
 
 S == INSTANCE Sha1 WITH Lens <- {}, Kinds <- {}, Mut <- {}, len <- 0, kind <- 0, g <- 0, rem <- 0, h <- <<>>, phase <- ""
@@ -28,7 +28,7 @@ Good(r) ==
   IF r.k = "sha1" THEN r.r = "ok" /\ S!Sha1(r.a) = r.b
   ELSE IF r.k = "b64e" THEN r.r = "ok" /\ B!Enc(r.a) = r.b /\ B!RoundTrip(r.a)
   ELSE IF r.k = "b64d" THEN [r |-> r.r, v |-> r.b] \in B!DecAllowed(r.a)
-  ELSE IF r.k = "pe" THEN r.r = "ok" /\ P!Enc(r.a) = r.b /\ P!RoundTrip(r.a)
+  ELSE IF r.k = "pe" THEN r.r = "ok" /\ P!EncAcceptable(r.a, r.b) /\ P!RoundTrip(r.a)
   ELSE IF r.k = "pd" THEN r.r \in {"ok", "err"} /\ [ok |-> r.r = "ok", v |-> r.b] = P!Dec(r.a)
   ELSE IF r.k = "date" THEN
        /\ InMonth(r)
@@ -36,22 +36,27 @@ Good(r) ==
           r.s = D!DayPart((mw + dd - 1) % 7, dd) \o D!MonthPart(m, y) \o D!TimeOfSecond(r.a[1]) \o " GMT"
   ELSE FALSE
 
-Init == D!Init /\ l = 1 /\ bad = <<>>
+\* stricter than the statement (reported as drift): the percent-encoder's output is the normal form (upper-case hex, unreserved left alone)
+Strict(r) == r.k = "pe" => P!Enc(r.a) = r.b
+
+Init == D!Init /\ l = 1 /\ bad = <<>> /\ odd = <<>>
 Consume == /\ l <= Len(Rec)
            /\ (Rec[l].k = "date" /\ ~D!AtEnd) => Rec[l].n < ms + D!DaysIn(m, y)
            /\ l' = l + 1
            /\ bad' = IF Good(Rec[l]) \/ Len(bad) >= 20 THEN bad ELSE Append(bad, l)
+           /\ odd' = IF ~Good(Rec[l]) \/ Strict(Rec[l]) \/ Len(odd) >= 20 THEN odd ELSE Append(odd, l)
            /\ UNCHANGED cal
 \* the record's day lies after the current month: go on by a whole year while it lies beyond this year, else by a month
 Advance == /\ l <= Len(Rec) /\ Rec[l].k = "date" /\ Rec[l].n >= ms + D!DaysIn(m, y)
            /\ IF Rec[l].n >= ys + D!YearLen(y) /\ y < 9999 THEN D!Year_Jump ELSE D!Month_Jump
-           /\ UNCHANGED <<l, bad>>
+           /\ UNCHANGED <<l, bad, odd>>
 Next == Consume \/ Advance
-Spec == Init /\ [][Next]_<<cal, l, bad>>
+Spec == Init /\ [][Next]_<<cal, l, bad, odd>>
 
 AllAgree == (l = Len(Rec) + 1) =>
-              \/ bad = <<>>
-              \/ PrintT(ToJson([rejected |-> [i \in 1..Len(bad) |-> Rec[bad[i]]]])) /\ FALSE
+              /\ (odd # <<>> => PrintT(ToJson([drift |-> [i \in 1..Len(odd) |-> Rec[odd[i]]]])))
+              /\ \/ bad = <<>>
+                 \/ PrintT(ToJson([rejected |-> [i \in 1..Len(bad) |-> Rec[bad[i]]]])) /\ FALSE
 \* (not in Trace_Codec.cfg: MC_HttpDate_months.cfg checks the same walk with these invariants)
 CalendarOK == D!JumpAgrees /\ D!YearAgrees /\ D!AlgoAgrees
 =============================================================================
